@@ -22,6 +22,9 @@ from checks import rating, audit
 HOST = audit.HOST
 
 
+CPU_BOUND = 12.0        # processor seconds one fault scenario may use on top of a second per connection (the costliest on the unchanged tree: see the evidence notes)
+
+
 def archetypes():
     A = {}
     A['openssh'] = peers.ServerCfg(
@@ -302,7 +305,7 @@ def build(tier, rnd):
                 if kind == 'gexgroup' and n <= 4:
                     # a group whose modulus is as long as a packet allows: whatever the tool computes with it is done within its time bound
                     faults = faults + [('hugegroup%d' % bits, (lambda d, bits=bits: [wire.frame(bytes([31]) + wire.mpint((1 << (bits - 1)) | 0x9f3b1) + wire.mpint(2))]))
-                                       for bits in ((32768, 65536, 262144) if n == 2 else (131072,))]
+                                       for bits in ((32768, 65536, 262144, 8388608) if n == 2 else (131072,))]      # (8388608 bits: a megabyte of modulus, sent in full)
             if kind == 'kexreply' and n <= 6:
                 # a well-formed reply whose RSA host key has a public exponent / a modulus as long as a packet allows (thousands of decimal digits):
                 # whatever the tool does with the numbers, it ends the audit in the ordinary way
@@ -553,6 +556,10 @@ def run(tier):
             direct = ('uncaught=%s at=%s' % (exc, loc), 'ended with status %r through %s in %s' % (res.get('exit'), exc, loc))
         elif res.get('waited', 0) > 5.0 * (res.get('nconn', 0) + 1) + 1e-6:
             direct = ('unbounded-wait', 'waited %.1f virtual seconds over %d connections' % (res['waited'], res['nconn']))
+        elif res.get('cpu', 0) > CPU_BOUND + 1.0 * res.get('nconn', 0):
+            # waiting is bounded by the timeout; computing is bounded by nothing but the size of what the peer may send in one packet: an audit that
+            # computes for this long on one well-formed packet is not "ending within its time bound"
+            direct = ('unbounded-computation', 'used %.0f s of processor time over %d connections (the clean audit of this server: under a second)' % (res['cpu'], res['nconn']))
         if direct:
             ck.violation(direct[0] + ' ' + fault_class(what), '[%s, %s] %s' % (name, what, direct[1]), replay)
             continue
@@ -609,6 +616,8 @@ def run(tier):
         # (b) rejected by the trace specification
         ck.violation(reject_signature(res, info, what), '[%s, %s] TraceAudit rejects the run: %s' % (name, what, short(info)), replay)
     json_leg(ck, tier, scs, meta)
+    top = sorted(((res.get('cpu', 0), m[0] + ' ' + m[1]) for m, res in zip(meta, results)), reverse=True)[:3]
+    ck.notes.append('processor time: the three costliest scenarios used ' + ', '.join('%.1f s (%s)' % t for t in top))
     ck.sample({'archetype': meta[5][0], 'fault': meta[5][1], 'exit': results[5].get('exit'), 'trace': audit.trace_events(results[5])[:25]})
     ck.cov['rule'] = ('TLC: every placement of up to MaxFaults faults over every read of every connection of the FaultFamily archetypes (safety + liveness). '
                       'Replay: three SSH-2 server archetypes x every emitted message x {eof, stall, reset, random bytes, truncations, every length field in '
